@@ -53,6 +53,11 @@ void h_dispatch(void) {
 #ifdef CV_REVERSE_PASS
   for (int i = CV_NCLASSES - 1; i >= 0; i--) { check_pair(T, obj, cv_classes[i]); }
   check_wf_type(T);
+#else
+  /* quick tier: second look at the classes that have a cache slot, now that every slot has been filled (a slot shared by two
+   * classes answers the first correctly when cold and the second wrongly when warm) */
+  for (int i = CELLO_CACHE_NUM - 1; i >= 0; i--) { var C = slot_class(i); ASSERT(type_instance(T, C) == cv_decl(T, cv_type_name(C)) && instance(obj, C) == cv_decl(T, cv_type_name(C)), "warm lookup of a cached class returns exactly the declared instance"); }
+  check_wf_type(T);
 #endif
   ASSERT(cv_throws == 0, "no exception during declared lookups");
   COVER(cv_decl(T, "Doc") != NULL || 1, "dispatch reached");
